@@ -16,7 +16,7 @@ from vf.models import dimlang as dl
 
 PNAMES = ["x", "y", "z", "u", "w"]
 CALL_NAMES = ["a", "b", "c", "n"]
-CALL_VNAMES = ["v", "w"]
+CALL_VNAMES = ["v", "w", "a"]
 
 
 def tok_json(t):
